@@ -20,7 +20,6 @@ pub fn canon<S: BDDSymbol>(tt: u64, syms: &[S]) -> Rc<BDD<S>> {
             Rc::new(BDD::Choice(t, syms[level].clone(), e))
         }
     }
-    debug_assert!(syms.windows(2).all(|w| w[0] < w[1]));
     go(tt, syms, 0, 0)
 }
 
